@@ -5,7 +5,8 @@ domain and enumerates the vectors; the real code is run on each vector; TLC
 import concurrent.futures, ipaddress, json, os, random, time
 import vf
 
-PLUGIN_PKGS = {"internal/plugin": ["common/vf_util.go", "plugin/vf_plugin.go"]}
+PLUGIN_PKGS = {"internal/plugin": ["common/vf_util.go", "plugin/vf_plugin.go"],
+               "internal/system": ["system/vf_export.go", "system/vf_addr_export.go"]}
 
 
 def _cfg(path, spec, consts, invs, post=None):
@@ -92,6 +93,10 @@ def wildcard_vectors(pid, tier, rng, tmp):
                                                                      "static": statics[n % 3]}})
         else:
             vecs.append({"kind": "c15", "id": "c15-%06d" % n, "in": {"routes": [RPOOL[i - 1] for i in idx], "fail": False}})
+    # every second vector reaches the plugin through the real rtnetlink decoding of internal/system
+    for n, v in enumerate(vecs):
+        if n % 2 == 1:
+            v["in"]["via"] = "rtnl"
     # listing failure must fail RA generation
     k = pid.lower()
     if pid == "C15":
@@ -114,6 +119,9 @@ def wildcard_vectors(pid, tier, rng, tmp):
                 vecs.append({"kind": "c13", "id": "c13-rand-%05d" % j, "in": {"addrs": lst, "fail": False, "onlink": True, "auto": j % 2 == 0}})
             else:
                 vecs.append({"kind": "c14", "id": "c14-rand-%05d" % j, "in": {"addrs": lst, "fail": False, "static": statics[j % 3]}})
+    for n, v in enumerate(vecs):
+        if "rand" in v["id"] and n % 2 == 0:
+            v["in"]["via"] = "rtnl"
     return [mc], vecs
 
 
